@@ -96,6 +96,13 @@ static void blk_malformed(void) {
 			memcpy(v1, c1, 64); memset(v1, 0xff, 32); cl = enc_ct(m, v1, c3, c2, n); offer("malformed:c1-x=2^256-1", d, m, cl);
 			memcpy(v1, c1, 64); BN_bin2bn(c1 + 32, 32, y); BN_sub(y, p, y); bn_to_be(v1 + 32, y); cl = enc_ct(m, v1, c3, c2, n); offer("malformed:c1-negated-y", d, m, cl);
 			memcpy(v1, c1, 64); BN_bin2bn(c1, 32, y); BN_add(y, y, p); if (BN_num_bits(y) <= 256) { bn_to_be(v1, y); cl = enc_ct(m, v1, c3, c2, n); offer("malformed:c1-x+p", d, m, cl); }
+			/* special abscissae: C1 = (x0, y0) with x0 in {0, smallest valid x > 0} is a legitimate point; the same ciphertext with x0+p (and y0+p when it fits) names no point */
+			for (unsigned xs = 0, found = 0; xs < 300 && found < 2; xs++) { EC_POINT *P0 = EC_POINT_new(sr_group()); BIGNUM *xb = BN_new(); BN_set_word(xb, xs);
+				if (EC_POINT_set_compressed_coordinates(sr_group(), P0, xb, 0, sr_ctx()) == 1) { found++; uint8_t s1[64], s3[32], s2[256]; sr_point_to_xy(P0, s1);
+					if (sr_seal_with_c1(DKEY[d], s1, PT[2], n, s3, s2)) { cl = enc_ct(m, s1, s3, s2, n); offer(xs ? "malformed:c1-small-x(valid)" : "malformed:c1-x=0(valid)", d, m, cl);
+						uint8_t w[64]; memcpy(w, s1, 64); BN_add(xb, xb, p); bn_to_be(w, xb); cl = enc_ct(m, w, s3, s2, n); offer(xs ? "malformed:c1-small-x+p" : "malformed:c1-x=p-with-y-of-x=0", d, m, cl);
+						memcpy(w, s1, 64); BN_bin2bn(s1 + 32, 32, y); BN_add(y, y, p); if (BN_num_bits(y) <= 256) { bn_to_be(w + 32, y); cl = enc_ct(m, w, s3, s2, n); offer("malformed:c1-small-x,y+p", d, m, cl); } } }
+				EC_POINT_free(P0); BN_free(xb); ERR_clear_error(); }
 			BN_free(y); }
 		/* non-canonical forms of the valid ciphertext */
 		cl = enc_ct(ct, c1, c3, c2, n);
